@@ -997,7 +997,7 @@ impl Sim {
             let slots = self.sh.slots.borrow();
             let hs: Vec<&Array> = args.iter().map(|s| slots[*s].as_ref().unwrap()).collect();
             let sh = self.sh.clone();
-            catch_unwind(AssertUnwindSafe(|| world::apply_op(&sh, uid, op, &hs, any_tracked)))
+            catch_unwind(AssertUnwindSafe(|| world::apply_op(&sh, uid, dst, op, &hs, any_tracked)))
         };
         let arr = match res {
             Ok(a) => a,
@@ -1169,7 +1169,7 @@ impl Sim {
                 let al = self.g.nodes[n].alias;
                 self.seed_pinned_aliases.insert(al);
                 self.fault("F2_seed_is_a_clone_of_a_live_array");
-                let as_view = !self.info[*s].as_ref().map(|h| h.tracked).unwrap_or(true) && self.passes.len() % 2 == 1;
+                let as_view = !self.info[*s].as_ref().map(|h| h.tracked).unwrap_or(true) && (root + *s) % 2 == 1;
                 let slots = self.sh.slots.borrow();
                 let h = slots[*s].as_ref().unwrap();
                 // every other time as a fresh view of the array's storage instead of a clone of the handle
